@@ -50,6 +50,7 @@ MODULES = ["Cppcheck.Props.C35"]
 
 CACHE = os.path.join(core.VERIF, ".build", "cache", "c35")
 CLANG = "clang-14"
+TRUTH_VERSION = "4"      # bump when truth_of() changes: cached entries hold the extracted truth
 
 
 # ---------------------------------------------------------------------------------------------------------
@@ -86,7 +87,7 @@ class Gen:
 
     # ---- expressions ----
     def ints(self, env):
-        return [n for n, k in env if k in ("int", "num")]
+        return [n for n, k in env if k in ("int", "num", "cint")]
 
     def args_for(self, kinds, env, ind, d):
         """argument expressions matching the parameter kinds of a callable, or None"""
@@ -188,7 +189,7 @@ class Gen:
                 return "static_cast<%s>(%s)" % (r.choice(["long", "int", "char"]), self.expr(env, ind, d + 1))
             return "(%s)%s" % (r.choice(["long", "int", "char", "unsigned"]), self.atom(env, ind))
         if c < 0.97:
-            iv = self.ints(env)
+            iv = [n for n, k in env if k in ("int", "num")]
             if iv:
                 return r.choice(iv) + r.choice(["++", "--"])
         return self.atom(env, ind)
@@ -307,6 +308,10 @@ class Gen:
             if lv and r.random() < 0.5:
                 self.features.add("if-nobrace")
                 return ["%sif (%s)" % (pad, self.expr(env, ind)), "%s  %s = %s;" % (pad, lv, self.expr(env, ind))], []
+        if c < 0.60 and d < 3 and self.cpp and self.stress:    # F35i: the condition variable of a while is not imported
+            self.features.add("while-condition-variable")
+            v = self.fresh("lv")
+            return self.body(env + [(v, "num")], ind, d, True, "while (int %s = %s)" % (v, self.expr(env, ind))), []
         if c < 0.64 and d < 3:
             self.features.add("while")
             return self.body(env, ind, d, True, "while (%s)" % self.expr(env, ind)), []
@@ -317,7 +322,7 @@ class Gen:
             return ls, []
         if c < 0.78 and d < 3:
             self.features.add("for")
-            iv = self.ints(env)
+            iv = [n for n, k in env if k in ("int", "num")]
             if r.random() < 0.6 or not iv:
                 v = self.fresh("li")
                 env2 = env + [(v, "int")]
@@ -475,6 +480,10 @@ class Gen:
                 out += ["namespace %s {" % ns, "  int %s = 2;" % g] + ls + ["}"]
                 self.globals.append(("%s::%s" % (ns, g), "int"))
                 self.funcs.append(("%s::%s" % (ns, f), kinds, ret))
+                if self.stress and r.random() < 0.6:      # F35h: uses found through a using-declaration
+                    self.features.add("using-declaration")
+                    out.append("using %s::%s;" % (ns, g))
+                    self.globals.append((g, "num"))
         for _ in range(r.randrange(1, 4)):
             f, kinds, ret, ls = self.function()
             out += ls
@@ -496,6 +505,28 @@ class Gen:
         lines += ["  int %s;" % f for f in fs if f not in late]
         info = dict(fields=fs, methods=[])
         fenv = [(f, "int") for f in fs]
+        # static data members and static member functions, mostly declared BELOW the inline member functions that use them: clang
+        # refers to them with a DeclRefExpr (not a MemberExpr) whose declaration comes later in the dump
+        statics, late_static = [], []
+        for _ in range(r.randrange(0, 3)):
+            sm = self.fresh("sm")
+            decl = "  static int %s;" % sm if r.random() < 0.6 else "  static const int %s = %d;" % (sm, r.randrange(1, 9))
+            self.features.add("static-member")
+            if r.random() < 0.75:
+                late_static.append(decl)
+                self.features.add("static-member-used-before-declaration")
+            else:
+                lines.append(decl)
+            if "const" not in decl:
+                fenv.append((sm, "int"))
+            else:
+                fenv.append((sm, "cint"))
+            statics.append((sm, "const" in decl))
+        sfuncs = []
+        if r.random() < 0.5:
+            sf = self.fresh("sf")
+            sfuncs.append(sf)
+            self.features.add("static-method-called-before-declaration")
         if r.random() < 0.5:
             self.features.add("ctor")
             lines.append("  %s() : %s(0) { %s = 1; }" % (c, fs[0], fs[-1]))
@@ -506,16 +537,28 @@ class Gen:
             m = self.fresh("me")
             qual = " const" if r.random() < 0.25 else ""
             self.features.add("method")
-            f, kinds, ret, ls = self.function(name=m, ind=2, extra_env=fenv if not qual else [], ret="int", qual=qual, proto_ok=False)
+            saved = list(self.funcs)
+            self.funcs = self.funcs + [(sf, [], "int") for sf in sfuncs]
+            menv = fenv if not qual else [(n_, k_) for n_, k_ in fenv if n_.startswith("sm")]
+            f, kinds, ret, ls = self.function(name=m, ind=2, extra_env=menv, ret="int", qual=qual, proto_ok=False)
+            self.funcs = saved
             lines += ls
             info["methods"].append((m, kinds))
+        for sf in sfuncs:
+            senv = [(n_, k_) for n_, k_ in fenv if n_.startswith("sm")]
+            lines += ["  static int %s() {" % sf, "    return %s;" % (self.expr(self.globals + senv, 4) if senv else "1"), "  }"]
         lines += ["  int %s;" % f for f in late]
+        lines += late_static
         if kw == "class" and r.random() < 0.3:
             lines.append("private:")
             p = self.fresh("fm")
             lines.append("  int %s;" % p)
         lines.append("};")
         self.classes[c] = info
+        for sm, isconst in statics:
+            self.globals.append(("%s::%s" % (c, sm), "cint" if isconst else "int"))
+        for sf in sfuncs:
+            self.funcs.append(("%s::%s" % (c, sf), [], "int"))
         return lines
 
 
@@ -567,15 +610,21 @@ def truth_of(text, js):
                                   func=func, anc=list(anc), dropped=dropped)
         if k == "DeclRefExpr" and n.get("referencedDecl") and e is not None:
             rd = n["referencedDecl"]
-            uses.append(dict(target=rd.get("id"), name=rd.get("name"), tkind=rd.get("kind"), off=e, begin=b, anc=list(anc), via="ref", dropped=dropped))
+            uses.append(dict(target=rd.get("id"), name=rd.get("name"), tkind=rd.get("kind"), off=e, begin=b, anc=list(anc), via="ref", dropped=dropped,
+                             using=(n.get("foundReferencedDecl") or {}).get("kind") == "UsingShadowDecl"))
         if k == "MemberExpr" and n.get("referencedMemberDecl") and e is not None:
             uses.append(dict(target=n["referencedMemberDecl"], name=n.get("name"), tkind=None, off=e, begin=b, anc=list(anc), via="member", dropped=dropped,
                              nonodr=bool(n.get("nonOdrUseReason"))))
         anc2 = anc + [b] if b is not None else anc
         func2 = n["id"] if k in FUNKINDS + ("CXXConstructorDecl", "CXXDestructorDecl") else func
-        for j, c in enumerate(n.get("inner", [])):
-            # the importer turns a DeclStmt into its FIRST declarator only (`getChild(0)->createTokens`)
-            walk(c, anc2, func2, dropped or (k == "DeclStmt" and j > 0))
+        inner = n.get("inner", [])
+        for j, c in enumerate(inner):
+            # the importer turns a DeclStmt into its FIRST declarator only (`getChild(0)->createTokens`) …
+            d2 = dropped or ("declarator" if (k == "DeclStmt" and j > 0) else False)
+            # … and takes condition and body of while/switch from the LAST two children: a condition variable (first child) is skipped
+            if k in ("WhileStmt", "SwitchStmt") and j == 0 and len(inner) == 3 and c.get("kind") == "DeclStmt":
+                d2 = d2 or "condvar"
+            walk(c, anc2, func2, d2)
 
     walk(js, [], None)
     for u in uses:
@@ -595,13 +644,14 @@ def truth_of(text, js):
                         funcprev=bool(d["func"] and funcprev.get(d["func"])), anclines=sorted(set(lc(a)[0] for a in d["anc"])),
                         dropped=d["dropped"])
     out_u = [dict(target=u["target"], name=u["name"], tkind=u["tkind"], off=u["off"], begin=lc(u["begin"]) if u["begin"] is not None else None,
-                  via=u["via"], anclines=sorted(set(lc(a)[0] for a in u["anc"])), dropped=u["dropped"], nonodr=u.get("nonodr", False)) for u in uses]
+                  via=u["via"], anclines=sorted(set(lc(a)[0] for a in u["anc"])), dropped=u["dropped"], nonodr=u.get("nonodr", False),
+                  using=u.get("using", False)) for u in uses]
     return dict(decls=out_d, uses=out_u)
 
 
 def clang_case(case):
     """fills case['dump'] (text dump) and case['truth']; cached"""
-    key = hashlib.sha1((case["lang"] + "\0" + case["text"]).encode()).hexdigest()
+    key = hashlib.sha1((TRUTH_VERSION + "\0" + case["lang"] + "\0" + case["text"]).encode()).hexdigest()
     p = os.path.join(CACHE, key + ".json")
     if os.path.exists(p):
         try:
@@ -722,7 +772,7 @@ def inv_problems(toks):
     return bad
 
 
-ENTITY = re.compile(r"^(gv|gs|ga|lv|la|ls|lp|lq|li|pa|fm|fn|me|EK)\d+$")
+ENTITY = re.compile(r"^(gv|gs|ga|lv|la|ls|lp|lq|li|pa|fm|fn|me|EK|sm|sf)\d+$")
 
 
 def align(case, toks):
@@ -794,10 +844,12 @@ def link_problems(case, toks):
                 td = tok_of_decl.get(o["id"])
                 if td is None:
                     if d["dropped"]:
-                        key = "declarator-dropped" if (t["varDef"] is None and t["varId"] == 0) else "use-wrong-decl"
-                        bad.append((key, "%s: its declaration (%d:%d) is not the first declarator of its statement and was not imported; "
-                                    "imported: varId=%d variable()->nameToken()=%r" % (where, d["begin"][0], d["begin"][1], t["varId"], t["varDef"]),
-                                    dict(tok=t["idx"])))
+                        kk = "condition-variable-dropped" if d["dropped"] == "condvar" else "declarator-dropped"
+                        key = kk if (t["varDef"] is None and t["varId"] == 0) else "use-wrong-decl"
+                        bad.append((key, "%s: its declaration (%d:%d) %s and was not imported; imported: varId=%d variable()->nameToken()=%r" %
+                                    (where, d["begin"][0], d["begin"][1],
+                                     "is the condition variable of a while/switch" if d["dropped"] == "condvar" else "is not the first declarator of its statement",
+                                     t["varId"], t["varDef"]), dict(tok=t["idx"])))
                     continue
                 if t["varDef"] == td["idx"] and t["varId"] == td["varId"] and t["varId"] != 0:
                     stats["var_uses_linked"] += 1
@@ -806,6 +858,8 @@ def link_problems(case, toks):
                     key = "param-of-redeclared-function"
                 elif t["varDef"] is None and t["varId"] == td["varId"] and t["varId"] != 0 and in_sizeof(toks, t["idx"]):
                     key = "use-inside-sizeof"
+                elif t["varDef"] is None and t["varId"] == 0 and o["u"].get("using"):
+                    key = "use-via-using-declaration"
                 elif t["varDef"] is None:
                     key = "use-unlinked"
                 else:
@@ -1025,7 +1079,7 @@ def mutate_dump(r, dump):
 # the check
 # ---------------------------------------------------------------------------------------------------------
 KNOWN_KEYS = ("loc-line-inherited", "param-of-redeclared-function", "declarator-dropped", "not-analysed-interleaved-diagnostics",
-              "call-of-redeclared-function")
+              "call-of-redeclared-function", "use-via-using-declaration", "condition-variable-dropped")
 # fixed in /repo (4904769, 62b103f, 683485c): "use-inside-sizeof", "member-nonodr-flag", "crash-interleaved-diagnostics" — their witnesses are
 # still replayed on every run and must stay clean; the old behaviour coming back is a VIOLATION (and breaks the correspondence: the
 # repaired behaviour is the only model)
